@@ -150,7 +150,7 @@ CHECKS = {
                      'is executed on real RunTask objects with sh -c commands, directly and under the scheduler; random cases validated by TLC.',
                 note='single task per scheduler run; stderr tokens are checked as a subsequence (echo lines are extra)',
                 technique='TLA+ spec + TLC enumeration, replay with real subprocesses, TLC batch trace validation'),
-    'C16': dict(engine='DepGraph', category='model_checking', design_ref='DESIGN.md §4 C16',
+    'C16': dict(engine='DepGraph', also=['RList'], category='model_checking', design_ref='DESIGN.md §4 C16',
                 text='DepGraph.tla (abstract node/edge sets, edit histories over graph variables, operator library for sort / reduction / closure / '
                      'graft / flatten) and DepGraphImpl.tla (node sequence + key->positions index + integer adjacency, remove by swap-with-last) with '
                      'a refinement check are model-checked: complete state spaces for alphabets of up to 4 names, all histories up to depth 3-4, all '
@@ -169,6 +169,7 @@ ENGINES = {
     'Persist': dict(path='specs/Persist.tla', kind_free_text='persistence/crash state machine + PersistTrace.tla; conf_persist.py'),
     'Factory': dict(path='specs/Factory.tla', kind_free_text='request/task spec + FactoryImpl.tla refinement + FactoryTrace.tla; conf_factory.py'),
     'RunCmd': dict(path='specs/RunCmd.tla', kind_free_text='command runner + task directory spec + RunCmdTrace.tla; conf_runcmd.py'),
+    'RList': dict(path='specs/RList.tla', kind_free_text='reverse-indexed list under DepGraph (observations only, run inside C16) + RListTrace.tla; conf_rlist.py'),
     'Decide': dict(path='specs/Decide.tla', kind_free_text='decision function of the backend for one task, all inputs (serves C02, C04) + DecideTrace.tla; conf_decide.py'),
     'Student': dict(path='specs/Student.tla', kind_free_text='function-like TLA+ spec + StudentTrace.tla; harness/laws.py, conf_student.py'),
     'Bonferroni': dict(path='specs/Bonferroni.tla', kind_free_text='function-like TLA+ spec + BonferroniTrace.tla; conf_bonferroni.py'),
